@@ -111,7 +111,7 @@ type storeOp struct {
 	// AcknowledgePublication (a masked update of an existing publication); "dispense" = vending Dispense (an update
 	// of an existing stock). Only where the server has such an RPC.
 	Via string `json:"via,omitempty"`
-	// Unit of the quantity of a vending Dispense: "" = unspecified, "l" = litres, "kg" = kilograms
+	// Unit of the quantity of a vending Dispense: "" = unspecified, "l" = litres, "kg" = kilograms, "m3" = cubic metres, "none" = NO_UNIT
 	Unit string `json:"unit,omitempty"`
 }
 
@@ -741,7 +741,7 @@ func (o *oracle) apply(op storeOp, out, got string) {
 				return
 			}
 		}
-		if o.find(id) < 0 {
+		if o.find(id) < 0 && strings.HasPrefix(out, "ok") {
 			o.entries = append(o.entries, entry{o.norm(id), id, o.pay})
 		}
 	case "ensure":
@@ -777,18 +777,20 @@ func (o *oracle) apply(op storeOp, out, got string) {
 	}
 }
 
-// hookOf: for a write that carries a write interceptor of the model (vending Dispense) the behaviour of the callback
-// as the Lean model takes it - "w": it leaves the written key alone, "r": it makes the message a copy of the stored
-// one and records an error - predicted from the payload the record carries now and the unit dispensed (an absent
-// record never reaches the callback). Other ops: got unchanged.
+// hookOf: for a write that carries a write interceptor of the model (vending Dispense) what the Lean model of the
+// callback needs: the units the stored record keeps Used / Remaining in (from the payload the record carries now;
+// an absent record never reaches the callback) and the unit dispensed, as "<used> <remaining> <unit>". Whether the
+// conversion fails - at once, half-way - is the MODEL's verdict (Hooks.lean: dispenseFails), compared with what the
+// RPC answered. Other ops: got unchanged.
 func (o *oracle) hookOf(op storeOp, got string) string {
 	if op.Via != "dispense" {
 		return got
 	}
-	if i := o.find(op.ID); i >= 0 && dispenseFails(o.entries[i].pay, op.Unit) {
-		return "r"
+	used, rem := "-", "-"
+	if i := o.find(op.ID); i >= 0 {
+		used, rem = payloadUnits(o.entries[i].pay)
 	}
-	return "w"
+	return fmt.Sprintf("%s %s %d", used, rem, dispenseUnit(op.Unit))
 }
 
 // present: the key fields in insertion order.
@@ -947,8 +949,8 @@ func (sc scenario) opLine(op storeOp, gen string) string {
 		line += " " + hexID(gen)
 	case "update":
 		if op.Via == "dispense" {
-			// Update*(message, InterceptBefore(callback)); gen: what the callback does ("w" | "r", oracle.hookOf)
-			return "sop hook " + hexID(op.ID) + " " + gen
+			// Update*(message, InterceptBefore(callback of DispenseInstantly)); gen: the units involved (oracle.hookOf)
+			return "sop dispense " + hexID(op.ID) + " " + gen
 		}
 		up, mk := 0, "n"
 		if op.Upsert {
